@@ -76,6 +76,8 @@ pub struct UState {
     pub compacted_below: u64,
     /// streaming lists: how many trailing ADDED/MODIFIED log entries are sent *after* the snapshot
     pub stream_lag: usize,
+    /// every list page is answered this late (a busy API server): a re-list takes a while
+    pub list_delay_ms: u64,
     pub stream_lists_served: u64,
     pub servers_reported_twice_in_initial_events: u64,
     live: Option<u64>,
@@ -151,6 +153,7 @@ impl Universe {
             log: Vec::new(),
             compacted_below: 0,
             stream_lag: 0,
+            list_delay_ms: 0,
             stream_lists_served: 0,
             servers_reported_twice_in_initial_events: 0,
             live: None,
@@ -547,6 +550,10 @@ async fn serve_list(u: &Arc<Universe>, sock: &mut TcpStream, target: &str, param
             }
         }
     };
+    let delay = u.lock().list_delay_ms;
+    if delay > 0 {
+        tokio::time::sleep(std::time::Duration::from_millis(delay)).await;
+    }
     match answer {
         Answer::Fail(code, reason, body) => {
             let ok = respond_json(sock, code, reason, &body).await;
